@@ -92,7 +92,7 @@ func rulesC09(c *Ctx) {
 		}
 		isSink := func(in ssa.Instruction) bool {
 			call, ok := in.(ssa.CallInstruction)
-			return ok && call.Common().Value == ssa.Value(ci.sink)
+			return ok && (call.Common().Value == ssa.Value(ci.sink) || fi.canon(call.Common().Value) == ssa.Value(ci.sink))
 		}
 		nGuarded := 0
 		for _, w := range writes {
@@ -181,6 +181,9 @@ func rulesC09(c *Ctx) {
 	ruleKeyPresence(c, "C09.PRESENCE")
 	ruleC09FanoutAlways(c)
 	ruleC09Dangling(c)
+	// every entity scan of the checks iterates the VALID ids of the store (for an extended child store:
+	// only entities that have child data), otherwise parent-only entities are reported as broken
+	ruleValidIds(c, "C09.VALIDIDS")
 	ruleC09Phases(c, cg, impls)
 	ruleReseek(c, "C09.RESEEK", c.prodFuncs("boltz"))
 }
